@@ -503,3 +503,581 @@ Proof.
   - rewrite sum_repeat. change (sb_dlen tiny_block) with 0. lia.
   - unfold message_len. rewrite sum_repeat, tiny_elen. unfold EMPTY_MESSAGE_LEN. lia.
 Qed.
+
+(* ------------------------------------------------------------------ CID bytes *)
+
+Definition cid_wf (c : cid) : Prop :=
+  cid_valid c /\ c_codec c < U64_MOD /\ c_code c < U64_MOD /\ (length (c_digest c) <= 64)%nat.
+
+Lemma take_exact_app :
+  forall (dg rest : list N), take_exact (length dg) (dg ++ rest) = Some dg.
+Proof.
+  intros dg rest. unfold take_exact. rewrite app_length.
+  destruct (Nat.leb (length dg) (length dg + length rest)) eqn:E.
+  - f_equal. rewrite firstn_app, PeanoNat.Nat.sub_diag, firstn_all. cbn [firstn]. apply app_nil_r.
+  - apply PeanoNat.Nat.leb_gt in E. lia.
+Qed.
+
+Lemma cid_roundtrip :
+  forall c rest, cid_wf c -> cid_read_bytes (cid_to_bytes c ++ rest) = Some c.
+Proof.
+  intros [v codec code dg] rest (Hval & Hc & Ht & Hl).
+  unfold cid_valid in Hval. cbn [c_version c_codec c_code c_digest] in *.
+  unfold cid_to_bytes, multihash_bytes, cid_read_bytes. cbn [c_version c_codec c_code c_digest].
+  destruct Hval as [(H1 & H2 & H3 & H4)|H1]; subst.
+  - change (0 =? 0) with true. cbn iota. rewrite H4. rewrite <- !app_assoc.
+    rewrite varint_roundtrip by (unfold SHA2_256, U64_MOD; lia).
+    rewrite varint_roundtrip by (unfold U64_MOD; lia).
+    change ((SHA2_256 =? 18) && (N.of_nat 32 =? 32)) with true. cbn iota.
+    replace 32%nat with (length dg) by exact H4. rewrite take_exact_app. reflexivity.
+  - change (1 =? 0) with false. cbn iota. rewrite <- !app_assoc.
+    rewrite varint_roundtrip by (unfold U64_MOD; lia).
+    rewrite varint_roundtrip by exact Hc.
+    change (1 =? 18) with false. cbn [andb]. change (1 =? 1) with true. cbn iota.
+    rewrite varint_roundtrip by exact Ht.
+    rewrite varint_roundtrip by (unfold U64_MOD; lia).
+    destruct (N.of_nat (length dg) <=? 64) eqn:E; [|lia].
+    rewrite Nat2N.id, take_exact_app. reflexivity.
+Qed.
+
+Lemma take_exact_length : forall n l dg, take_exact n l = Some dg -> length dg = n.
+Proof.
+  intros n l dg. unfold take_exact. destruct (Nat.leb n (length l)) eqn:E; [|discriminate].
+  intros H. inversion H; subst. apply PeanoNat.Nat.leb_le in E. apply firstn_length_le. exact E.
+Qed.
+
+(* every CID the parser returns is one the cid crate can represent *)
+Lemma cid_read_bytes_wf : forall l c, cid_read_bytes l = Some c -> cid_wf c.
+Proof.
+  intros l c. unfold cid_read_bytes.
+  destruct (varint_dec l) as [[v r1]|] eqn:E1; [|discriminate].
+  destruct (varint_dec r1) as [[co r2]|] eqn:E2; [|discriminate].
+  destruct ((v =? 18) && (co =? 32)) eqn:E0.
+  - destruct (take_exact 32 r2) as [dg|] eqn:ET; [|discriminate].
+    intros H. inversion H; subst. apply take_exact_length in ET.
+    unfold cid_wf, cid_valid. cbn [c_version c_codec c_code c_digest].
+    unfold DAG_PB, SHA2_256, U64_MOD. split; [left; repeat split; lia|repeat split; lia].
+  - destruct (v =? 1) eqn:EV; [|discriminate].
+    destruct (varint_dec r2) as [[code r3]|] eqn:E3; [|discriminate].
+    destruct (varint_dec r3) as [[size r4]|] eqn:E4; [|discriminate].
+    destruct (size <=? 64) eqn:ES; [|discriminate].
+    destruct (take_exact (N.to_nat size) r4) as [dg|] eqn:ET; [|discriminate].
+    intros H. inversion H; subst. apply take_exact_length in ET.
+    apply varint_dec_lt in E2. apply varint_dec_lt in E3.
+    unfold cid_wf, cid_valid. cbn [c_version c_codec c_code c_digest].
+    split; [right; reflexivity|]. repeat split; try assumption; lia.
+Qed.
+
+(* ------------------------------------------------------------------ wantlists *)
+
+Lemma entry_want_request :
+  forall c w, cid_wf c -> entry_want (request_entry (c, w)) = Some (c, w).
+Proof.
+  intros c w H. unfold entry_want, request_entry. cbn [fst snd we_block we_wanttype].
+  rewrite <- (app_nil_r (cid_to_bytes c)), cid_roundtrip by exact H.
+  destruct w; reflexivity.
+Qed.
+
+Lemma request_roundtrip :
+  forall cids, Forall (fun cw => cid_wf (fst cw)) cids ->
+    inbound_wants (request_entries cids) = cids.
+Proof.
+  induction cids as [|[c w] t IH]; intros H; [reflexivity|].
+  inversion H; subst. unfold inbound_wants, request_entries in *. cbn [map flat_map].
+  rewrite entry_want_request by assumption. cbn [opt_list app]. f_equal. apply IH. assumption.
+Qed.
+
+Lemma inbound_wants_app :
+  forall l1 l2, inbound_wants (l1 ++ l2) = inbound_wants l1 ++ inbound_wants l2.
+Proof. intros. unfold inbound_wants. apply flat_map_app. Qed.
+
+Lemma invalid_entry_ignored :
+  forall l1 e l2, entry_want e = None ->
+    inbound_wants (l1 ++ e :: l2) = inbound_wants (l1 ++ l2).
+Proof.
+  intros l1 e l2 H. rewrite !inbound_wants_app. f_equal.
+  unfold inbound_wants. cbn [flat_map]. rewrite H. reflexivity.
+Qed.
+
+Lemma entry_want_spec :
+  forall e c w, entry_want e = Some (c, w) ->
+    cid_read_bytes (we_block e) = Some c /\ we_wanttype e = want_code w /\ cid_wf c.
+Proof.
+  intros e c w. unfold entry_want.
+  destruct (cid_read_bytes (we_block e)) as [c0|] eqn:E; [|discriminate].
+  pose proof (cid_read_bytes_wf _ _ E) as Hwf.
+  destruct (we_wanttype e =? 0) eqn:E0.
+  - intros H. inversion H; subst. cbn [want_code]. split; [reflexivity|]. split; [lia|exact Hwf].
+  - destruct (we_wanttype e =? 1) eqn:E1; [|discriminate].
+    intros H. inversion H; subst. cbn [want_code]. split; [reflexivity|]. split; [lia|exact Hwf].
+Qed.
+
+Lemma inbound_wants_in :
+  forall es c w, In (c, w) (inbound_wants es) ->
+    exists e, In e es /\ cid_read_bytes (we_block e) = Some c /\ we_wanttype e = want_code w /\ cid_wf c.
+Proof.
+  intros es c w H. unfold inbound_wants in H. apply in_flat_map in H.
+  destruct H as (e & Hin & H). destruct (entry_want e) as [[c0 w0]|] eqn:E; [|destruct H].
+  destruct H as [H|[]]. inversion H; subst. exists e. split; [exact Hin|].
+  apply entry_want_spec. exact E.
+Qed.
+
+(* priority, cancel and sendDontHave play no role *)
+Lemma entry_want_ignores :
+  forall b t p1 c1 s1 p2 c2 s2,
+    entry_want (mkWE b p1 c1 t s1) = entry_want (mkWE b p2 c2 t s2).
+Proof. reflexivity. Qed.
+
+Lemma presence_roundtrip :
+  forall c p, cid_wf c -> presence_of (cid_to_bytes c, presence_code p) = Some (c, p).
+Proof.
+  intros c p H. unfold presence_of. cbn [fst snd].
+  rewrite <- (app_nil_r (cid_to_bytes c)), cid_roundtrip by exact H.
+  destruct p; reflexivity.
+Qed.
+
+(* ------------------------------------------------------------------ whole messages *)
+
+Section MessageProofs.
+  Variable D : Type.
+  Variable digest : N -> D -> option (list N).
+
+  Notation msg_events := (msg_events D digest).
+  Notation msg_responses := (msg_responses D digest).
+  Notation inbound_events := (inbound_events D digest).
+  Notation session_events := (session_events D digest).
+  Notation event_blocks := (event_blocks D).
+
+  Lemma msg_event_blocks :
+    forall m, flat_map event_blocks (msg_events m) = responses D digest (m_payload m).
+  Proof.
+    intros m. unfold Model.msg_events. rewrite flat_map_app.
+    assert (H1 : flat_map event_blocks
+                   match m_wantlist m with
+                   | Some es => match inbound_wants es with [] => [] | ws => [ERequest ws] end
+                   | None => []
+                   end = []).
+    { destruct (m_wantlist m) as [es|]; [|reflexivity].
+      destruct (inbound_wants es); reflexivity. }
+    rewrite H1. cbn [app].
+    assert (H2 : flat_map event_blocks
+                   match msg_responses m with [] => [] | rs => [EResponse rs] end =
+                 flat_map (fun r => match r with RBlock c d => [(c, d)] | RPresence _ _ => [] end)
+                          (msg_responses m)).
+    { destruct (msg_responses m) as [|r rs]; [reflexivity|].
+      cbn [flat_map Model.event_blocks]. apply app_nil_r. }
+    rewrite H2. unfold Model.msg_responses. rewrite flat_map_app.
+    assert (H3 : forall ps, flat_map (fun r : response D => match r with RBlock c d => [(c, d)] | RPresence _ _ => [] end)
+                   (flat_map (fun cp => match presence_of cp with
+                                        | Some (c, p) => [RPresence c p]
+                                        | None => []
+                                        end) ps) = []).
+    { induction ps as [|cp ps IH]; [reflexivity|]. cbn [flat_map]. rewrite flat_map_app, IH.
+      destruct (presence_of cp) as [[c p]|]; reflexivity. }
+    rewrite H3, app_nil_r.
+    induction (responses D digest (m_payload m)) as [|[c d] t IH]; [reflexivity|].
+    cbn [map flat_map fst snd app]. f_equal. exact IH.
+  Qed.
+
+  Lemma msg_blocks_certified :
+    forall m c d, In (c, d) (flat_map event_blocks (msg_events m)) ->
+      exists pb, In (pb, d) (m_payload m) /\ block_to_response D digest pb d = Some (c, d).
+  Proof. intros m c d H. rewrite msg_event_blocks in H. apply responses_certified. exact H. Qed.
+
+  Lemma inbound_frames :
+    forall ms, inbound_events (map IFrame ms) = flat_map msg_events ms.
+  Proof.
+    induction ms as [|m t IH]; [reflexivity|]. cbn [map Model.inbound_events flat_map]. f_equal. exact IH.
+  Qed.
+
+  (* no partial delivery: whatever ends the substream contributes nothing, and nothing after it
+     is read *)
+  Lemma inbound_no_partial :
+    forall ms rest, inbound_events (map IFrame ms ++ IBad :: rest) = flat_map msg_events ms.
+  Proof.
+    induction ms as [|m t IH]; intros rest; [reflexivity|].
+    cbn [map app Model.inbound_events flat_map]. f_equal. apply IH.
+  Qed.
+
+  Lemma session_event_blocks_in :
+    forall ops c d, In (c, d) (flat_map event_blocks (session_events ops)) ->
+      exists m, In (SIncoming m) ops /\ In (c, d) (flat_map event_blocks (msg_events m)).
+  Proof.
+    induction ops as [|o t IH]; intros c d H; [destruct H|].
+    unfold Model.session_events in H. cbn [flat_map] in H. rewrite flat_map_app in H.
+    apply in_app_or in H. destruct H as [H|H].
+    - destruct o as [cids|m]; [destruct H|]. exists m. split; [left; reflexivity|exact H].
+    - destruct (IH c d H) as (m & Hin & Hb). exists m. split; [right; exact Hin|exact Hb].
+  Qed.
+
+  (* whatever was asked, whoever answers, in whatever order: every block handed to the user
+     hashes to the CID it is reported under *)
+  Lemma session_blocks_certified :
+    forall ops c d, In (c, d) (flat_map event_blocks (session_events ops)) ->
+      digest (c_code c) d = Some (c_digest c) /\ cid_valid c /\ (length (c_digest c) <= 64)%nat.
+  Proof.
+    intros ops c d H. apply session_event_blocks_in in H. destruct H as (m & _ & H).
+    apply msg_blocks_certified in H. destruct H as (pb & _ & H).
+    apply self_certifying in H. destruct H as (_ & p & _ & Hd & Hc & _ & _ & Hl & Hv).
+    rewrite Hc. repeat split; assumption.
+  Qed.
+
+  (* ---- the client with a want set ---- *)
+
+  Lemma nlist_eqb_spec :
+    forall x y : list N,
+      (fix eqb (x y : list N) : bool :=
+         match x, y with
+         | [], [] => true
+         | p :: x', q :: y' => (p =? q) && eqb x' y'
+         | _, _ => false
+         end) x y = true <-> x = y.
+  Proof.
+    induction x as [|p x IH]; destruct y as [|q y]; split; intros H; try reflexivity; try discriminate.
+    - apply andb_true_iff in H. destruct H as [H1 H2]. apply IH in H2. f_equal; [lia|exact H2].
+    - inversion H; subst. apply andb_true_iff. split; [lia|]. apply IH. reflexivity.
+  Qed.
+
+  Lemma cid_eqb_spec : forall a b, cid_eqb a b = true <-> a = b.
+  Proof.
+    intros [v1 c1 t1 d1] [v2 c2 t2 d2]. unfold cid_eqb. cbn [c_version c_codec c_code c_digest].
+    rewrite !andb_true_iff, nlist_eqb_spec. split.
+    - intros (((H1 & H2) & H3) & H4). f_equal; try lia. exact H4.
+    - intros H. inversion H; subst. repeat split; lia.
+  Qed.
+
+  Lemma cid_eqb_refl : forall a, cid_eqb a a = true.
+  Proof. intros a. apply cid_eqb_spec. reflexivity. Qed.
+
+  Lemma cid_mem_spec : forall c l, cid_mem c l = true <-> In c l.
+  Proof.
+    intros c l. unfold cid_mem. rewrite existsb_exists. split.
+    - intros (x & Hin & H). apply cid_eqb_spec in H. subst. exact Hin.
+    - intros H. exists c. split; [exact H|apply cid_eqb_refl].
+  Qed.
+
+  Lemma cid_remove_in : forall c x l, In x (cid_remove c l) <-> In x l /\ x <> c.
+  Proof.
+    intros c x l. unfold cid_remove. rewrite filter_In. split; intros (H1 & H2); split; try exact H1.
+    - intros E. subst. rewrite cid_eqb_refl in H2. discriminate.
+    - destruct (cid_eqb c x) eqn:E; [|reflexivity]. apply cid_eqb_spec in E. congruence.
+  Qed.
+
+  Definition cnt (c : cid) (l : list (cid * D)) : nat :=
+    length (filter (fun x => cid_eqb c (fst x)) l).
+
+  Lemma cnt_app : forall c l1 l2, cnt c (l1 ++ l2) = (cnt c l1 + cnt c l2)%nat.
+  Proof. intros. unfold cnt. rewrite filter_app, app_length. reflexivity. Qed.
+
+  Definition memn (c : cid) (l : list cid) : nat := if cid_mem c l then 1%nat else 0%nat.
+
+  Lemma accept_blocks_spec :
+    forall bs want w acc,
+      accept_blocks D want bs = (w, acc) ->
+      (forall x, In x acc -> In x bs /\ In (fst x) want) /\
+      (forall c, In c w -> In c want) /\
+      (forall c, (cnt c acc + memn c w <= memn c want)%nat).
+  Proof.
+    induction bs as [|[c0 d0] t IH]; intros want w acc H; cbn [accept_blocks] in H.
+    - inversion H; subst. split; [|split].
+      + intros x [].
+      + intros c Hc. exact Hc.
+      + intros c. unfold cnt. cbn [filter length]. lia.
+    - destruct (cid_mem c0 want) eqn:EM.
+      + destruct (accept_blocks D (cid_remove c0 want) t) as [w1 acc1] eqn:ER.
+        inversion H; subst. apply IH in ER. destruct ER as (A1 & A2 & A3).
+        apply cid_mem_spec in EM. split; [|split].
+        * intros x [Hx|Hx].
+          -- subst x. split; [left; reflexivity|exact EM].
+          -- apply A1 in Hx. destruct Hx as (Hx1 & Hx2). split; [right; exact Hx1|].
+             apply cid_remove_in in Hx2. tauto.
+        * intros c Hc. apply A2 in Hc. apply cid_remove_in in Hc. tauto.
+        * intros c. specialize (A3 c). unfold cnt in *. cbn [filter fst].
+          destruct (cid_eqb c c0) eqn:EC.
+          -- apply cid_eqb_spec in EC. subst c0.
+             assert (HM : memn c (cid_remove c want) = 0%nat).
+             { unfold memn. destruct (cid_mem c (cid_remove c want)) eqn:E; [|reflexivity].
+               apply cid_mem_spec, cid_remove_in in E. tauto. }
+             assert (HW : memn c want = 1%nat).
+             { unfold memn. destruct (cid_mem c want) eqn:E; [reflexivity|].
+               apply cid_mem_spec in EM. congruence. }
+             cbn [length]. lia.
+          -- assert (HM : memn c (cid_remove c0 want) = memn c want).
+             { unfold memn.
+               destruct (cid_mem c want) eqn:E1; destruct (cid_mem c (cid_remove c0 want)) eqn:E2;
+                 try reflexivity.
+               - apply cid_mem_spec in E1.
+                 assert (HI : In c (cid_remove c0 want)).
+                 { apply cid_remove_in. split; [exact E1|]. intros X. subst.
+                   rewrite cid_eqb_refl in EC. discriminate. }
+                 apply cid_mem_spec in HI. congruence.
+               - apply cid_mem_spec, cid_remove_in in E2. destruct E2 as (E2 & _).
+                 apply cid_mem_spec in E2. congruence. }
+             lia.
+      + apply IH in H. destruct H as (A1 & A2 & A3). split; [|split].
+        * intros x Hx. apply A1 in Hx. destruct Hx as (Hx1 & Hx2). split; [right; exact Hx1|exact Hx2].
+        * exact A2.
+        * exact A3.
+  Qed.
+
+  Notation client_run := (client_run D digest).
+
+  (* only requested, and certified: an accepted block was asked for before the message that
+     carried it arrived, it is in that message, and it hashes to its CID *)
+  Lemma client_only_requested :
+    forall ops want c d,
+      In (c, d) (client_run want ops) ->
+      exists o1 m o2,
+        ops = o1 ++ SIncoming m :: o2 /\
+        (In c want \/ In c (requested D o1)) /\
+        In (c, d) (flat_map event_blocks (msg_events m)) /\
+        digest (c_code c) d = Some (c_digest c).
+  Proof.
+    induction ops as [|o t IH]; intros want c d H; [destruct H|].
+    destruct o as [cids|m]; cbn [Model.client_run] in H.
+    - apply IH in H. destruct H as (o1 & m & o2 & E & Hw & Hb & Hd).
+      exists (SRequest cids :: o1), m, o2. subst t. split; [reflexivity|]. split; [|split; assumption].
+      unfold requested. cbn [flat_map]. destruct Hw as [Hw|Hw].
+      + apply in_app_or in Hw. destruct Hw as [Hw|Hw]; [left; exact Hw|].
+        right. apply in_or_app. left. exact Hw.
+      + right. apply in_or_app. right. exact Hw.
+    - destruct (accept_blocks D want (flat_map event_blocks (msg_events m))) as [w acc] eqn:EA.
+      apply accept_blocks_spec in EA. destruct EA as (A1 & A2 & _).
+      apply in_app_or in H. destruct H as [H|H].
+      + apply A1 in H. destruct H as (Hb & Hw). cbn [fst] in Hw.
+        exists [], m, t. split; [reflexivity|]. split; [left; exact Hw|]. split; [exact Hb|].
+        apply msg_blocks_certified in Hb. destruct Hb as (pb & _ & Hb).
+        apply self_certifying in Hb. destruct Hb as (_ & p & _ & Hd & Hc & _). rewrite Hc. exact Hd.
+      + apply IH in H. destruct H as (o1 & m0 & o2 & E & Hw & Hb & Hd).
+        exists (SIncoming m :: o1), m0, o2. subst t. split; [reflexivity|]. split; [|split; assumption].
+        destruct Hw as [Hw|Hw]; [left; apply A2; exact Hw|right; exact Hw].
+  Qed.
+
+  Definition req_count (c : cid) (ops : list (sess_op D)) : nat :=
+    length (filter (fun o => match o with
+                             | SRequest cids => cid_mem c (map fst cids)
+                             | SIncoming _ => false
+                             end) ops).
+
+  Lemma memn_app : forall c l1 l2, (memn c (l1 ++ l2) <= memn c l1 + memn c l2)%nat.
+  Proof.
+    intros c l1 l2. unfold memn.
+    destruct (cid_mem c (l1 ++ l2)) eqn:E; [|lia].
+    apply cid_mem_spec, in_app_or in E. destruct E as [E|E]; apply cid_mem_spec in E; rewrite E; lia.
+  Qed.
+
+  (* at most once per request: a CID is accepted no more often than it was asked for *)
+  Lemma client_no_duplicates :
+    forall ops want c, (cnt c (client_run want ops) <= memn c want + req_count c ops)%nat.
+  Proof.
+    induction ops as [|o t IH]; intros want c; [cbn; lia|].
+    destruct o as [cids|m]; cbn [Model.client_run].
+    - specialize (IH (want ++ map fst cids) c). pose proof (memn_app c want (map fst cids)) as HA.
+      unfold req_count in *. cbn [filter]. unfold memn in HA at 3.
+      destruct (cid_mem c (map fst cids)); cbn [length]; lia.
+    - destruct (accept_blocks D want (flat_map event_blocks (msg_events m))) as [w acc] eqn:EA.
+      apply accept_blocks_spec in EA. destruct EA as (_ & _ & A3).
+      rewrite cnt_app. specialize (IH w c). specialize (A3 c).
+      unfold req_count in *. cbn [filter]. lia.
+  Qed.
+End MessageProofs.
+
+(* the bare events are not filtered: a block nobody asked for is delivered, and delivered again
+   when it arrives again *)
+Definition demo_digest (code : N) (d : N) : option (list N) :=
+  if code =? 18 then Some (repeat d 32%nat) else None.
+Definition demo_msg : message N := mkMsg None [([1; 85; 18; 32], 7)] [].
+Definition demo_cid : cid := mkCid 1 85 18 (repeat 7 32%nat).
+
+Lemma unsolicited_delivered :
+  exists ops : list (sess_op N),
+    requested N ops = [] /\
+    In (demo_cid, 7) (flat_map (event_blocks N) (session_events N demo_digest ops)).
+Proof. exists [SIncoming demo_msg]. split; [reflexivity|]. vm_compute. left. reflexivity. Qed.
+
+Lemma duplicate_delivered :
+  exists ops : list (sess_op N),
+    requested N ops = [demo_cid] /\
+    flat_map (event_blocks N) (session_events N demo_digest ops) = [(demo_cid, 7); (demo_cid, 7)].
+Proof.
+  exists [SRequest [(demo_cid, WBlock)]; SIncoming demo_msg; SIncoming demo_msg].
+  split; vm_compute; reflexivity.
+Qed.
+
+(* ------------------------------------------------------------------ presences *)
+
+Lemma cid_bytes_len_le : forall c, (length (cid_to_bytes c) <= 40 + length (c_digest c))%nat.
+Proof.
+  intros c. unfold cid_to_bytes, multihash_bytes, varint_enc.
+  pose proof (enc_len_le 9 (c_version c)). pose proof (enc_len_le 9 (c_codec c)).
+  pose proof (enc_len_le 9 (c_code c)). pose proof (enc_len_le 9 (N.of_nat (length (c_digest c)))).
+  destruct (c_version c =? 0); rewrite !app_length; lia.
+Qed.
+
+Lemma presence_elen_le : forall cidlen t, presence_elen cidlen t <= 24 + cidlen.
+Proof.
+  intros cidlen t. unfold presence_elen, field_len.
+  pose proof (vlen_bounds cidlen).
+  destruct (cidlen =? 0); destruct (t =? 0);
+    match goal with |- context [vlen (?a + ?b)] => pose proof (vlen_bounds (a + b)) end; lia.
+Qed.
+
+Lemma default_presence_fits :
+  forall p, (length (c_digest (sp_cid p)) <= 64)%nat ->
+    fits spres (fun _ => 0) sp_elen 0 Consts.BITSWAP_MAX_MESSAGE_SIZE p = true.
+Proof.
+  intros p H. unfold fits, sp_elen.
+  pose proof (presence_elen_le (N.of_nat (length (cid_to_bytes (sp_cid p)))) (presence_code (sp_type p))).
+  pose proof (cid_bytes_len_le (sp_cid p)).
+  unfold Consts.BITSWAP_MAX_MESSAGE_SIZE, EMPTY_MESSAGE_LEN in *. cbn [andb N.leb]. lia.
+Qed.
+
+Lemma filter_all_true :
+  forall {X} (f : X -> bool) l, Forall (fun x => f x = true) l -> filter f l = l.
+Proof.
+  intros X f l H. induction H as [|x l Hx _ IH]; [reflexivity|]. cbn [filter]. rewrite Hx, IH. reflexivity.
+Qed.
+
+Lemma default_presences_all_sent :
+  forall l, Forall (fun p => (length (c_digest (sp_cid p)) <= 64)%nat) l ->
+    concat (send_response_presences Consts.BITSWAP_MAX_MESSAGE_SIZE l) = l.
+Proof.
+  intros l H. unfold send_response_presences. rewrite sent_partition.
+  apply filter_all_true. eapply Forall_impl; [|exact H]. intros p Hp. apply default_presence_fits. exact Hp.
+Qed.
+
+(* F-C20b: one unsplit presence message cannot respect a size limit *)
+Definition tiny_presence : spres := mkSP 0 (mkCid 1 85 18 (repeat 0 32%nat)) PHave.
+
+Lemma tiny_presence_elen : sp_elen tiny_presence = 40.
+Proof. reflexivity. Qed.
+
+Lemma sum_repeat_gen :
+  forall {X} (f : X -> N) a n, sum (map f (repeat a n)) = N.of_nat n * f a.
+Proof.
+  intros X f a. induction n as [|n IH]; cbn [repeat map sum]; [lia|]. rewrite IH. lia.
+Qed.
+
+Lemma unsplit_presences_insufficient :
+  forall mm, 42 <= mm ->
+    exists l : list spres,
+      Forall (fun p => fits spres (fun _ => 0) sp_elen 0 mm p = true) l /\
+      mm < message_len spres sp_elen l.
+Proof.
+  intros mm H. exists (repeat tiny_presence (S (N.to_nat mm))). split.
+  - apply Forall_forall. intros x Hx. apply repeat_spec in Hx. subst x.
+    unfold fits. rewrite tiny_presence_elen. unfold EMPTY_MESSAGE_LEN. cbn [andb N.leb]. lia.
+  - unfold message_len. rewrite sum_repeat_gen, tiny_presence_elen. unfold EMPTY_MESSAGE_LEN. lia.
+Qed.
+
+(* ------------------------------------------------------------------ writing to substreams *)
+
+Lemma write_msgs_spec :
+  forall mm ms c done part c' ok,
+    write_msgs mm c ms = (done, part, c', ok) ->
+    exists rest,
+      ms = done ++ rest /\
+      (ok = true -> rest = [] /\ part = 0) /\
+      (ok = false -> rest <> []) /\
+      Forall (fun m => omsg_len m <= mm) done.
+Proof.
+  induction ms as [|m t IH]; intros c done part c' ok H; cbn [write_msgs] in H.
+  - inversion H; subst. exists []. repeat split; try reflexivity; try discriminate. constructor.
+  - destruct (mm <? omsg_len m) eqn:EL.
+    + inversion H; subst. exists (m :: t). repeat split; try discriminate. constructor.
+    + destruct c as [b|].
+      * destruct (frame_len m <=? b) eqn:EB.
+        -- destruct (write_msgs mm (Some (b - frame_len m)) t) as [[[d1 p1] c1] o1] eqn:ER.
+           inversion H; subst. apply IH in ER. destruct ER as (rest & E1 & E2 & E3 & E4).
+           exists rest. split; [cbn [app]; f_equal; exact E1|]. split; [exact E2|]. split; [exact E3|].
+           constructor; [lia|exact E4].
+        -- inversion H; subst. exists (m :: t). repeat split; try discriminate. constructor.
+      * destruct (write_msgs mm None t) as [[[d1 p1] c1] o1] eqn:ER.
+        inversion H; subst. apply IH in ER. destruct ER as (rest & E1 & E2 & E3 & E4).
+        exists rest. split; [cbn [app]; f_equal; exact E1|]. split; [exact E2|]. split; [exact E3|].
+        constructor; [lia|exact E4].
+Qed.
+
+(* a substream that takes everything gets every message that respects the codec limit *)
+Lemma write_msgs_healthy :
+  forall mm ms, Forall (fun m => omsg_len m <= mm) ms -> write_msgs mm None ms = (ms, 0, None, true).
+Proof.
+  induction ms as [|m t IH]; intros H; [reflexivity|]. inversion H; subst.
+  cbn [write_msgs]. destruct (mm <? omsg_len m) eqn:E; [lia|]. rewrite IH by assumption. reflexivity.
+Qed.
+
+Definition omsg_blocks (m : omsg) : list sblock := match m with OBlocks l => l | _ => [] end.
+Definition omsg_presences (m : omsg) : list spres := match m with OPresences l => l | _ => [] end.
+
+Lemma response_msgs_within_limit :
+  forall mb mm ps bs, Forall (fun m => omsg_len m <= mm) (action_msgs mb mm (AResponse ps bs)).
+Proof.
+  intros mb mm ps bs. cbn [action_msgs]. apply Forall_app. split; apply Forall_forall; intros m Hm;
+    apply in_map_iff in Hm; destruct Hm as (l & E & Hl); subst m; cbn [omsg_len].
+  - unfold send_response_presences in Hl.
+    pose proof (sent_bounds spres (fun _ => 0) sp_elen 0 mm ps) as HB.
+    rewrite Forall_forall in HB. apply HB in Hl. tauto.
+  - unfold send_response_blocks in Hl.
+    pose proof (sent_bounds sblock sb_dlen sb_elen mb mm bs) as HB.
+    rewrite Forall_forall in HB. apply HB in Hl. tauto.
+Qed.
+
+Lemma flat_map_map_id :
+  forall {X Y} (f : X -> Y) (g : Y -> list X), (forall x, g (f x) = [x]) ->
+    forall l, flat_map g (map f l) = l.
+Proof.
+  intros X Y f g H. induction l as [|x l IH]; [reflexivity|]. cbn [map flat_map]. rewrite H, IH. reflexivity.
+Qed.
+
+Lemma flat_map_map_nil :
+  forall {X Y Z} (f : X -> Y) (g : Y -> list Z), (forall x, g (f x) = []) ->
+    forall l, flat_map g (map f l) = [].
+Proof.
+  intros X Y Z f g H. induction l as [|x l IH]; [reflexivity|]. cbn [map flat_map]. rewrite H, IH. reflexivity.
+Qed.
+
+Lemma flat_map_concat_map :
+  forall {X Y} (g : X -> list Y) l, flat_map g l = concat (map g l).
+Proof. intros. induction l as [|x l IH]; [reflexivity|]. cbn [flat_map map concat]. rewrite IH. reflexivity. Qed.
+
+(* the messages of a response carry, in order, exactly the presences and exactly the blocks that
+   fit a message *)
+Lemma response_lossless :
+  forall mb mm ps bs,
+    flat_map omsg_presences (action_msgs mb mm (AResponse ps bs)) =
+      filter (fits spres (fun _ => 0) sp_elen 0 mm) ps /\
+    flat_map omsg_blocks (action_msgs mb mm (AResponse ps bs)) =
+      filter (fits sblock sb_dlen sb_elen mb mm) bs.
+Proof.
+  intros mb mm ps bs. cbn [action_msgs]. rewrite !flat_map_app. split.
+  - rewrite (flat_map_map_nil OBlocks omsg_presences) by reflexivity. rewrite app_nil_r.
+    rewrite flat_map_concat_map, map_map. cbn [omsg_presences]. rewrite map_id.
+    unfold send_response_presences. apply sent_partition.
+  - rewrite (flat_map_map_nil OPresences omsg_blocks) by reflexivity. cbn [app].
+    rewrite flat_map_concat_map, map_map. cbn [omsg_blocks]. rewrite map_id.
+    unfold send_response_blocks. apply sent_partition.
+Qed.
+
+(* over a substream that takes everything the whole response goes out *)
+Lemma response_written_healthy :
+  forall mb mm ps bs,
+    write_msgs mm None (action_msgs mb mm (AResponse ps bs)) =
+    (action_msgs mb mm (AResponse ps bs), 0, None, true).
+Proof. intros. apply write_msgs_healthy. apply response_msgs_within_limit. Qed.
+
+(* Sender failure composed with the receiver: whatever the sender managed to write before the
+   substream stalled or failed — complete frames and a piece of the next one — a receiver that
+   decodes frame m as (rx m) delivers exactly the events of the complete frames. *)
+Lemma sender_failure_no_partial_delivery :
+  forall (D : Type) (digest : N -> D -> option (list N)) (rx : omsg -> message D)
+         mm c ms done part c' ok rest,
+    write_msgs mm c ms = (done, part, c', ok) ->
+    inbound_events D digest (map (fun m => IFrame (rx m)) done ++ IBad :: rest) =
+      flat_map (fun m => msg_events D digest (rx m)) done /\
+    exists tail, ms = done ++ tail.
+Proof.
+  intros D digest rx mm c ms done part c' ok rest H. split.
+  - rewrite <- (map_map rx IFrame). rewrite inbound_no_partial.
+    rewrite flat_map_concat_map, map_map, <- flat_map_concat_map. reflexivity.
+  - apply write_msgs_spec in H. destruct H as (tail & E & _). exists tail. exact E.
+Qed.
